@@ -845,17 +845,17 @@ def general_histories(rng, tier, n_hist=None, steps=None):
             h.do(("transfer", 2, USER0 + 2, q, max(1, base // rng.choice([1, 3, 1000]))))
             # a first provision that DECLARES a native amount the pair already holds idle, attaching nothing of it
             h.do(("provide", q, USER0, [], ("n", 1), max(1, base // 4), ("t", 2), max(1, base // 8), None, None))
-            if hi % 4 in (0, 2):
-                # ... and then a proper first provision (funds attached, whitelisted caller) on that pair, which already holds
-                # idle balances of both assets: they stay in the pool, nobody else's balance moves (C07-agent21: the idle
-                # balances paid out to the factory by the first provision)
-                h.do(("provide", q, USER0, [(1, max(1000, base // 4))], ("n", 1), max(1000, base // 4), ("t", 2), max(1000, base // 8), None, None))
             h.query("sim %d %s %d" % (q, a_line(("n", 1)), max(1, base // 100)))
             h.query("revsim %d %s %d" % (q, a_line(("n", 1)), max(1, base // 1000)))
             h.query("rsim %d %s" % (max(1, base // 100), ops_line([(("t", 2), ("n", 1))])))
             amt = max(1, base // 50)
             quote = h.query("sim %d %s %d" % (q, a_line(("n", 1)), amt))
             h.do(("swap", q, USER0 + 1, [(1, amt)], ("n", 1), amt, None, None, None), quote)
+            if hi % 4 in (0, 2):
+                # ... and, after the quotes and the swap on the still unprovisioned pair, a proper first provision (funds attached, whitelisted caller) on that pair, which already holds
+                # idle balances of both assets: they stay in the pool, nobody else's balance moves (C07-agent21: the idle
+                # balances paid out to the factory by the first provision)
+                h.do(("provide", q, USER0, [(1, max(1000, base // 4))], ("n", 1), max(1000, base // 4), ("t", 2), max(1000, base // 8), None, None))
         else:
             setup_pairs(h, rng, kinds)
         # directed: the owner asks for a pair of ONE cw20 written in two spellings (never creatable); if it exists all the same,
@@ -905,6 +905,11 @@ def general_histories(rng, tier, n_hist=None, steps=None):
                 if off[0] == "n":
                     h.do(("swap", q_, u_, [(off[1], amt // 2)], off, amt, None, None, None), quote)
                     h.do(("swap", q_, u_, [(off[1], amt - 1)], off, amt, None, None, None), quote)
+                    # exactly the declared amount, but in ANOTHER denom (alone): the pair's other native asset or a coin it
+                    # does not trade (C01-agent13 was caught only when the random malformed-funds variant drew this)
+                    for wd in range(h.nd):
+                        if wd != off[1] and h.bank(u_, wd) >= amt:
+                            h.do(("swap", q_, u_, [(wd, amt)], off, amt, None, None, None), quote)
                 else:
                     h.do(("send", off[1], u_, q_, amt, ("hswap", off, amt // 2, None, None, None)), quote)
         for step_k in range(steps):
@@ -2273,6 +2278,13 @@ def router_histories(rng, tier):
                     h.do(("router_ops", u, [(ops[0][0][1], amount)], ops, quote[0] + dm, ROUTER), quote)
                 else:
                     h.do(("send", ops[0][0][1], u, ROUTER, amount, ("hrouter", ops, quote[0] + dm, ROUTER)), quote)
+        # last of all: the router holds some of a route's MIDDLE asset; its forward quote is still the hop-by-hop composition of
+        # the pair quotes (C12-agent8: the router's own holdings added to the carried amount of later hops)
+        h.do(("bank", USER0, ROUTER, [(B[1], 777)]) if B[0] == "n" else ("transfer", B[1], USER0, ROUTER, 777))
+        for ops in ([(A, B), (B, C)], [(C, B), (B, A)]):
+            amt_ = 10 ** 5 + 1
+            h.query("rsim %d %s" % (amt_, ops_line(ops)))
+            h.compose_queries(amt_, ops, False)
         cases.append(h.finish())
     return cases
 
